@@ -89,4 +89,14 @@ Fixpoint session_stream (dst src : list N) (c : cstate) (kus : list keyup) : cst
       let '(c2, outs) := session_stream dst src c1 r in
       (c2, out ++ outs)
   end.
+
+(** the specification of a reconfigured session: each group of key-ups carries the callsigns configured for it *)
+Fixpoint configured_stream (c : cstate) (groups : list (list N * list N * list keyup)) : cstate * list N :=
+  match groups with
+  | [] => (c, [])
+  | (dst, src, kus) :: r =>
+      let '(c1, out) := session_stream dst src c kus in
+      let '(c2, outs) := configured_stream c1 r in
+      (c2, out ++ outs)
+  end.
 End SpecMod.
